@@ -45,7 +45,7 @@ class TapeRecorder:
             return self.__class__(
                 algebra=self.algebra,
                 expr=f"({self.expr}[{idx}],)",
-                keys=(self.keys()[idx],)
+                keys=(0,)
             )
 
     def grade(self, *grades):
